@@ -1,12 +1,33 @@
 package main
 
+import (
+	"encoding/json"
+	"os"
+)
+
 // Per-property metadata that goes into evidence files.
 
 var propLevels = map[string]string{}
 
+// levelOf: the level claimed for the property in /verif/claims.json (the evidence must carry the same level as the manifest).
 func levelOf(prop string) string {
 	if l, ok := propLevels[prop]; ok {
 		return l
+	}
+	var claims struct {
+		Checks map[string]struct {
+			Category string `json:"category"`
+		} `json:"checks"`
+	}
+	for _, p := range []string{os.Getenv("VERIF_CLAIMS"), "/verif/claims.json", "claims.json"} {
+		if p == "" {
+			continue
+		}
+		if b, err := os.ReadFile(p); err == nil && json.Unmarshal(b, &claims) == nil {
+			if c, ok := claims.Checks[prop]; ok && c.Category != "" {
+				return c.Category
+			}
+		}
 	}
 	return "proof"
 }
